@@ -179,6 +179,8 @@ public:
 	std::vector<std::unique_ptr<ConditionalScope>> scopes;
 	std::vector<std::unique_ptr<GroupScope>> groupStack;
 	std::map<std::string, std::shared_ptr<Memory<UInt>>> mems;
+	std::map<std::string, gtry::Clock> dclocks;                         // derived clocks (same clock pin as the design clock)
+	std::vector<std::unique_ptr<ClockScope>> clkStack;
 	bool dropAll = false;
 
 	Val &get(const std::string &n) { auto it = b.vars.find(n); if (it == b.vars.end()) throw std::runtime_error("unknown var " + n); return *it->second; }
@@ -307,6 +309,23 @@ public:
 		else if (op == "out") { Val &a = get(t[2]); if (a.isBit()) pinOut(a.b()).setName(t[1]); else pinOut(a.u()).setName(t[1]); b.outNames.push_back(t[1]); }
 		else if (op == "drop") { b.vars.erase(t[1]); }
 		else if (op == "dropall") { dropAll = true; }
+		else if (op == "dclk") {       // dclk NAME [falling|both] [rst=sync|async|none] [act=low|high] [rstname=X] : derived from the current clock, same pin
+			ClockConfig cfg;
+			for (size_t i = 2; i < t.size(); i++) {
+				if (t[i] == "falling") cfg.triggerEvent = ClockConfig::TriggerEvent::FALLING;
+				else if (t[i] == "both") cfg.triggerEvent = ClockConfig::TriggerEvent::RISING_AND_FALLING;
+				else if (t[i] == "rst=sync") cfg.resetType = ClockConfig::ResetType::SYNCHRONOUS;
+				else if (t[i] == "rst=async") cfg.resetType = ClockConfig::ResetType::ASYNCHRONOUS;
+				else if (t[i] == "rst=none") cfg.resetType = ClockConfig::ResetType::NONE;
+				else if (t[i] == "act=low") cfg.resetActive = ClockConfig::ResetActive::LOW;
+				else if (t[i] == "act=high") cfg.resetActive = ClockConfig::ResetActive::HIGH;
+				else if (t[i].rfind("rstname=", 0) == 0) cfg.resetName = t[i].substr(8);
+				else throw std::runtime_error("dclk option " + t[i]);
+			}
+			dclocks.emplace(t[1], ClockScope::getClk().deriveClock(cfg));
+		}
+		else if (op == "clk") { clkStack.push_back(std::make_unique<ClockScope>(dclocks.at(t[1]))); }
+		else if (op == "endclk") { if (clkStack.empty()) throw std::runtime_error("endclk"); clkStack.pop_back(); }
 		else if (op == "xovr") {       // xovr NAME a b : NAME = a, with b as export override (simulation keeps a)
 			Val &a = get(t[2]); Val &c = get(t[3]);
 			if (a.isBit()) { Bit x = a.b(); x.exportOverride(c.b()); setB(t[1], x); }
